@@ -79,4 +79,28 @@ CHECKS.update({
  },
 })
 
+CHECKS.update({
+ "C04": {
+  "text": "Authz.tla transcribes the RFC 5280 5.2.1 issuer-candidate search and the signature check next to the requirement 'signed by an entitled issuer' and proves OnlyEntitled on every row of signer(7) x AKI form(6) x keyUsage(3) x algorithm(10 supported + RSA-PSS + Ed25519) x mutation site(5); every row is materialised with real keys and a derbuild CRL, served at a leaf's CDP and taken in by a real validator under verify + crl_cdp_strict; in force <=> the strict gate passes. Plus one bit flipped in every (quick: every third) byte of tbsCertList and signature of a small valid CRL.",
+  "note": "Exhaustive over the abstract table in the thorough tier (quick: 4-5 algorithms, a third of the mutation rows). Bit positions inside a byte and mutated offsets inside a region are seeded. Trusts TLC, Go crypto for producing signatures, derbuild for rendering.",
+  "technique": "TLC decision table (Authz.tla) + row-by-row replay through the validator with real signatures and bit-flip sweeps",
+ },
+ "C06": {
+  "text": "CrlReader.tla models ReadCRL as a control-state machine over the element stream of every document of the bounded RFC 5280 grammar (396 documents: version absent/v2/v3, nextUpdate?, list absent/empty/1-2 entries with extension and GeneralizedTime flags, crlExtensions absent/plain/number/critical) next to an independent whole-document reference semantics; Agree, RejectsOutOfProfile, DigestExact are invariants. Every document is materialised (derbuild, real signature) in several shapes and read by the real streaming reader; callbacks are compared with the model's event sequence and with a whole-document encoding/asn1 decoder incl. the digest of TBSCertList.Raw.",
+  "note": "Structure exhaustive within MaxEntries=2 (each abstract entry is a block of 1/40/130 concrete entries); bytes inside a shape class (algorithm, DER/PEM/CRLF, serial width, extension length class, alignment at 4096k+delta) seeded. Encode/decode fidelity is decided by the differential oracle, not by TLC.",
+  "technique": "TLC over the bounded CRL grammar (CrlReader.tla vs reference semantics) + differential replay against a whole-document decoder",
+ },
+ "C07": {
+  "text": "CrlReader.tla with fault transitions: from each of the 12 control states each of 8 fault classes (eof, wrong tag, length beyond data / beyond int / indefinite / oversize / over the structure cap, undecodable content) leads to Rejected with bounded allocation (NoPanic, Total, AllocBounded, QuietAfterReject). Every (state, fault) pair is applied at the structural position of that state in a valid document (with and without re-encoding the enclosing lengths, DER and PEM), plus every truncation of valid CRLs, seeded random bytes / edits / PEM armour faults, and mutated AKI values through the issuer-candidate search; each input runs under recover(), a 20 s watchdog and a TotalAlloc budget of 8 MiB + 32 x input length.",
+  "note": "All 96 (state, fault) pairs covered in both tiers; random inputs are seeded samples (1.5 k quick / 100 k thorough). Memory safety itself is the Go runtime's; decided: panic-freedom, termination, allocation volume.",
+  "technique": "TLC fault-transition model (CrlReader.tla, Faulty=TRUE) + structure-aware fault injection and seeded fuzzing under watchdog and allocation budget",
+ },
+ "C17": {
+  "category": "other",
+  "text": "Child processes read N and 10N entries (reader alone DER/PEM, reader into LevelDB, whole validator path HTTP download -> parse -> disk store) logging live heap after forced GC at every 1/20 of the list; TLC validates each trace against TraceMem.tla (entry counter follows the reader's Deliver steps; invariant heap <= C0 + C1*(held+resident), C1 = 0 on the disk path) and peak(10N) - peak(N) <= 32 MiB. held <= 1 is proved on CrlReader.tla (OneResident).",
+  "note": "A measured resource bound seen through a trace: TLC contributes the abstraction and the invariant, not a proof about the allocator. N = 20 k / 200 k (quick), 100 k / 1 M (thorough); validator-path input files are 9 MB / 90 MB so that buffering the download exceeds every allowance.",
+  "technique": "trace validation by TLC (TraceMem.tla) of heap samples recorded from the real reader/validator in child processes",
+ },
+})
+
 PENDING = {}
